@@ -225,6 +225,22 @@ class MyError(Exception):
     pass
 
 
+class FalsyBoom(Boom):
+    """A custom converter that is falsy (it has a length: the number of strings seen, 0 when handed in)."""
+
+    def __init__(self):
+        self.seen = []
+
+    def __len__(self):
+        return len(self.seen)
+
+    def unicode_to_latex(self, s):
+        self.seen.append(s)
+        return Boom.unicode_to_latex(self, s)
+
+    latex_to_text = unicode_to_latex
+
+
 class ArgsBoom:
     """A converter failing with exceptions whose arguments are not text (KeyError(7), OSError(2, ...), no arguments),
     on values that hold %-format and template characters."""
@@ -268,6 +284,7 @@ def boom_variants():
         b = Boom()
         b.exc = exc
         yield b
+    yield FalsyBoom()  # (the converter the caller gave is the converter used, whatever its truth value)
 
 
 def catalogue():
